@@ -59,6 +59,17 @@ def bytesArg (s : String) : M (List UInt8) :=
 
 def showStr (s : Str) : String := String.ofList s
 
+/-- the text `String()` returned: it must at least be valid UTF-8 (the containers hold valid UTF-8 only) -/
+def textArg (t : Tok) : M Str :=
+  match t.toList with
+  | 's' :: d =>
+    match hexToBytes (String.ofList d) with
+    | some bs => match bytesToStr bs with
+      | some s => pure s
+      | none => fail s!"SPEC C02: String() is not valid UTF-8 (hence not JSON): bytes {String.ofList d}"
+    | none => fail s!"protocol: bad hex {t}"
+  | _ => fail s!"protocol: bad string {t}"
+
 /-- C02 monitor + model comparison for a serialised text -/
 def checkSer (tree : JVal) (text : Str) : M Unit := do
   match Strict.decode text with
@@ -138,11 +149,11 @@ def execFn (name : String) (fields : List String) : M Unit := do
   -- ---------------- serialiser
   | "ser", [tree, text] =>
     let t ← treeArg tree
-    checkSer t (← strArg text)
+    checkSer t (← textArg text)
   -- ---------------- round trip
   | "rt", [root, tree, text, pres, eq, pres2] =>
     let t ← treeArg tree
-    let tx ← strArg text
+    let tx ← textArg text
     checkSer t tx
     let obs := parsePObs pres
     -- the property monitor first (it judges the implementation), then the model comparison
